@@ -26,8 +26,8 @@ impl Prop for C07 {
     }
     fn budget(&self, tier: Tier) -> u64 {
         match tier {
-            Tier::Quick => 200_000,
-            Tier::Thorough => 8_000_000,
+            Tier::Quick => 800_000,
+            Tier::Thorough => 12_000_000,
         }
     }
     fn required_labels(&self) -> Vec<&'static str> {
@@ -35,6 +35,21 @@ impl Prop for C07 {
             "resp_set_endpoint_id", "resp_get_endpoint_id", "resp_get_endpoint_uuid", "resp_get_mctp_version_support",
             "resp_get_message_type_support", "resp_get_vendor_defined_message_support", "nonsuccess", "eid_via_process", "types30",
         ]
+    }
+    fn enumerate(&self, tier: Tier, shard: usize, nshards: usize, f: &mut dyn FnMut(EncCase)) {
+        let mut idx = 0usize;
+        super::enumer::for_each_enc_case(tier, false, false, false, &mut |env, call| {
+            if !call.is_response_encoder() {
+                return;
+            }
+            idx += 1;
+            if idx % nshards == shard {
+                f(EncCase { env, call });
+            }
+        });
+    }
+    fn enumerated_desc(&self, _tier: Tier) -> Option<String> {
+        Some("all 6 completion codes x every (assignment, allocation) status pair, x every (endpoint type, ID type, fairness) triple, x 3 UUIDs, x every message-type list length 0..30, x vendor ID field lengths 0..7 x 5 selectors; every selector 0..255; every stored EID 0..255 (through the accessor and through a processed Set Endpoint ID) for the two EID-reporting encoders".into())
     }
     fn run(&self, case: &EncCase) -> CaseResult {
         let mut r = CaseResult::default();
